@@ -783,7 +783,10 @@ func TestC01_Bound(t *testing.T) {
 		case "wrong-payload-type":
 			switch rp.Pick(rt, "wrongType", "content-type", "other-shape", "descriptor-at-top", "empty-object") {
 			case "content-type":
-				c.Envelope = buildEnv(c.Format, sA, art.payload(), rp.Pick(rt, "cty", "application/json", "application/vnd.cncf.notary.payload.v2+json", "text/plain"), c.Plugin)
+				c.Envelope = buildEnv(c.Format, sA, art.payload(), rp.Pick(rt, "cty", "application/json", "application/vnd.cncf.notary.payload.v2+json", "text/plain",
+					// near the Notary payload type, and not it: the type is one exact string
+					envb.PayloadType+"x", "application/vnd.cncf.notary.payload.v10+json", "application/vnd.cncf.notary.payload.v1.revocation+json", "application/vnd.cncf.notary.payload.v1+json+json",
+					"Application/vnd.cncf.notary.payload.v1+json", envb.PayloadType+"; charset=utf-8", " "+envb.PayloadType, "application/vnd.cncf.notary.payload.v1", "application/vnd.cncf.notary.payload.v1+cbor"), c.Plugin)
 				c.Detail = "content-type"
 			case "other-shape":
 				c.Envelope = buildEnv(c.Format, sA, []byte(`{"subject":{"digest":"`+art.digest+`"}}`), envb.PayloadType, c.Plugin)
